@@ -8,44 +8,44 @@ TECH = "deterministic simulation with fault injection"
 
 CLAIMED = {
     "C01": dict(
-        text="Seeded simulation of one hostile / corrupted / fuzzed document (32 shape generators incl. nesting knobs up to 2e5, non-UTF-8 bytes at 24 syntactic positions, corrupted real documents, dictionary attribute fuzz) under a configuration with limits <= defaults and a stream fault plan (chunking, EINTR, short writes, Ok(0), hard read/write errors at drawn offsets), driven through transform_str, transform_stream over fault-injecting BufRead/Write, cli::run in-process, the axum Router in-process, the real svgdx child process and (thorough) a real svgdx-server child, on 2 MiB / 8 MiB simulated threads. Oracles: every front-end returns Ok or Err (exit 0/1/2 with a message, HTTP 2xx/4xx); no panic, no process abort (workers are contained and restarted by the driver), no hang (3e6 element-evaluation step budget, 12 s CPU budget); hard stream errors surface as Err with accepted bytes a prefix of the fault-free output; transparent faults leave the result byte-identical.",
+        text="Seeded simulation of one hostile / corrupted / fuzzed document (44 shape generators incl. nesting knobs up to 2e5, non-UTF-8 bytes at 25 syntactic positions, corrupted real documents, dictionary attribute fuzz and two grids: one svgdx attribute x the whole 230-value dictionary, every path command x 15 magnitudes; operator/function pair grid over 40 special operands; lazy variable doubling) under a configuration with limits <= defaults and a stream fault plan (chunking, EINTR, short writes, Ok(0), hard read/write errors at drawn offsets), driven through transform_str, transform_stream over fault-injecting BufRead/Write, cli::run in-process, the axum Router in-process, the real svgdx child process (also with stdout or stderr on a full device) and a real svgdx-server child (each request also in 20 wire styles: Content-Types incl. none and non-ASCII parameters, body whole or in pieces), on 2 MiB / 8 MiB simulated threads. Oracles: every front-end returns Ok or Err (exit 0/1/2 with a message, HTTP 2xx/4xx); no panic, no process abort (workers are contained and restarted by the driver), no hang (3e6 element-evaluation step budget, 12 s CPU budget); hard stream errors surface as Err with accepted bytes a prefix of the fault-free output; transparent faults leave the result byte-identical.",
         note="'Every byte sequence' is sampled, not enumerated. Polynomial (quadratic/cubic) cost in one attribute's length or a use-chain's length is measured in DESIGN.md but not asserted: the CPU budget is a net for non-termination and exponential blow-up, and generators cap such shapes.",
         technique=TECH + ": fault-injecting BufRead/Write seams, stream corruption, hostile workload shapes, process-level abort/hang containment with seeded replay, step-budget bounded liveness",
         design="DESIGN.md §4 C01",
     ),
     "C06": dict(
-        text="Seeded simulation of incarnation histories: the same (document, configuration) is executed on fresh threads whose OS entropy (every RandomState hash seed, via an interposed getrandom) and wall clock (interposed clock_gettime) are re-armed from the run seed, repeated on one thread, and in real svgdx child processes with their own entropy, clock, environment and cwd; all outputs / error Display strings must be byte-equal (local-style id masked when the clock differs). Exploration: evidence, not proof.",
-        note="Trusts that the libc interposer reaches every RandomState and SystemTime (self-tested in every worker). CLOCK_MONOTONIC and ASLR are not simulated. The CLI's Debug rendering of errors is not compared.",
+        text="Seeded simulation of incarnation histories: the same (document, configuration) is executed on fresh threads whose OS entropy (every RandomState hash seed, via an interposed getrandom) and wall clock (interposed clock_gettime) are re-armed from the run seed, repeated on one thread, interleaved by the turnstile with a neighbour thread under a far configuration, in real svgdx child processes with their own entropy, clock, environment and cwd (stdout, stdin, over a longer existing file, --watch started over a newer output), and by a real svgdx-server under simultaneous requests and in 20 wire styles; all outputs, the library's error Display and the command's message (between command runs fed the same way) must be byte-equal, up to the one permitted token - the local-style id, found by its use, not its format. Exploration: evidence, not proof.",
+        note="Trusts that the libc interposer reaches every RandomState and SystemTime (self-tested in every worker). CLOCK_MONOTONIC and ASLR are not simulated. Requests to the real server and the --watch session are real-time observations of a real process (its scheduler is not simulated).",
         technique=TECH + ": entropy/clock seam (LD_PRELOAD getrandom + clock_gettime), seeded incarnation histories, byte-equality oracle",
         design="DESIGN.md §4 C06",
     ),
     "C07": dict(
-        text="Seeded simulation of a process hosting several clients: 1..4 simulated threads (real threads, but a seeded turnstile - sequential / uniform / sticky / PCT-like - decides who runs at every stream I/O call, every element evaluation via the verif hook, and every request boundary) issue 1..4 requests each through transform_str, transform_stream over fault-injecting streams, cli::run file->file on private directories, the axum Router, and (sampled) the real svgdx child. A reference model - the solo golden result of each distinct (document, configuration), computed forward and in reverse before any concurrency - judges every response: byte equality / equal error Display, exit-status and HTTP 200/400 mapping, output file exactly the golden bytes (no stale tail), failing transforms and injected faults (hard stream errors, input-is-directory, missing input/output directory/TMPDIR, /dev/full) leave a sentinel output file byte-for-byte untouched, and every same-file spelling (same, ./, ../, symlink, hard link, symlinked input) is refused with the input intact. Bounded liveness: all requests finish within the step budget.",
-        note="Today svgdx has no shared state, so interleavings cannot matter on the current tree; the check exists to catch a future cache / static / thread_local. Child processes are compared by outcome class only (stderr is Debug). hyper and sockets are below the in-process Router and are only exercised by C01 thorough's end-to-end smoke.",
+        text="Seeded simulation of a process hosting several clients: 1..4 simulated threads (real threads, but a seeded turnstile - sequential / uniform / sticky / PCT-like - decides who runs at every stream I/O call, every element evaluation via the verif hook, and every request boundary) issue 1..4 requests each through transform_str, transform_stream over fault-injecting streams, cli::run file->file on private directories, the axum Router, the real svgdx child, the real svgdx-server child (single requests in 20 wire styles, bursts of 6-12 simultaneous requests) and, outside the turnstile, the command in --watch mode over several saves of one file. A reference model - the solo golden result of each distinct (document, configuration), computed forward and in reverse before any concurrency - judges every response: byte equality up to the local-style id / equal error Display between the library functions, failure <-> non-zero exit / HTTP 400, in local-style scenarios every reference run repeated by a fresh process with the same per-request clock, output file exactly the golden bytes (no stale tail), failing transforms and injected faults (hard stream errors, input-is-directory, missing input/output directory/TMPDIR, /dev/full) leave a sentinel output file byte-for-byte untouched, and every same-file spelling (same, ./, ../, symlink, hard link, symlinked input, the input's directory, standard input redirected from the output file) is refused with the input intact. Bounded liveness: all requests finish within the step budget.",
+        note="Today svgdx has no shared state, so interleavings cannot matter on the current tree; the check exists to catch a future cache / static / thread_local. Inside the real server and the --watch process the simulator does not own the schedule: those observations are real-time, unrepeatable ones are dropped and never void the verdict. Two known findings (empty rendering answered 400 by the server; bodies over 2 MiB answered 413) are reported under their own signatures.",
         technique=TECH + ": seeded turnstile scheduler over real threads with yield points at stream I/O and element evaluation, fault-injecting streams and file-system faults, history check against a solo reference execution",
         design="DESIGN.md §4 C07",
     ),
     "C10": dict(
-        text="The evaluation schedule of svgdx's retry work-list is the sibling order of the document. Each generated reference DAG (22 relative-positioning kinds over 9 absolute anchor kinds) is executed under every sibling order - exhaustively all n! for n <= 5, identity + reversal + 62 seeded orders for n in 6..8 - and every element's geometry must equal its geometry under the forward-reference-free order; unsatisfiable graphs (unknown id, 2-/3-cycles, self reference, target without bounding box) must fail under every order. Exploration over DAG shapes; exhaustive over schedules for small n.",
-        note="Generated elements are side-effect free (no '^', no <var>, no random functions). Numeric tolerance 2e-3. Root viewBox/width/height not compared (C08 is not applicable). The verif hook only counts retries (non-triviality); the verdict is on output bytes.",
+        text="The evaluation schedule of svgdx's retry work-list is the sibling order of the document. Each generated reference DAG (54 relative kinds - incl. blocks, '^' users whose predecessor waits, content of never-rendered containers - over 10 absolute kinds, plus motifs: a clipPath as a sibling, a reuse of a waiting group, inert siblings of other vocabularies) is executed under every sibling order - exhaustively all n! for n <= 5, identity + reversal + 62 seeded orders for n in 6..8 - and every element's geometry and the root extent must equal those under the forward-reference-free order; now and then the orders are successive saves of one file watched by one svgdx --watch process; unsatisfiable graphs (unknown id, 2-/3-cycles, self reference, target without bounding box, clip to an unknown id) must fail under every order. Exploration over DAG shapes; exhaustive over schedules for small n.",
+        note="Generated nodes are self-contained (a '^' only names an element of its own node; no random functions). Numeric tolerance 2e-3. The root extent is compared between orders, not against a reference of its own (C08 is not applicable). The verif hook only counts retries (non-triviality); the verdict is on output bytes.",
         technique=TECH + ": schedule = sibling order of the retry work-list, fault = unresolved forward reference; all n! schedules for n<=5, seeded sampling above; geometry-equality oracle against the fault-free schedule",
         design="DESIGN.md §4 C10",
     ),
     "C14": dict(
-        text="PARTIAL (clauses b and c only). Exactly-once: the hidden state is the position of the document PRNG; randint(0,999999) beacons / random() are placed at 14 attribute sites of the element pipeline, inside loops (fixed or random count), ifs, groups, reuse attributes and specs-template bodies, with API seeds and <config seed> reseeding; every printed value must equal what svgdx itself prints for the same ordered draws in a flat calibration document (one plain element per occurrence per rendering, same reseeds) - no PRNG algorithm is assumed; on that stream: same values under any non-seed configuration, randint(n,n) advances, <config seed=S> restarts as a document with seed S. Fail-on-malformed: 8 malformed-expression kinds x 16 sites x 5 neighbourhoods (alone / beside / inside / after elements that need a retry) must fail the transform - the retry protocol must not turn an error into success. Clause (a), arithmetic semantics of a pure evaluator, is NOT decided by this technique.",
+        text="PARTIAL (clauses b and c only). Exactly-once: the hidden state is the position of the document PRNG; randint(0,999999) beacons / random() are placed at 18 attribute sites of the element pipeline (one at the start of a 66 KB value), inside loops (fixed or random count), ifs, groups, reuse attributes, group- and leaf-template bodies, as identical blocks in one value, as function arguments, in group attributes read lazily by children, with API seeds and <config seed> reseeding; every printed value must equal what svgdx itself prints for the same ordered draws in a flat calibration document (one plain element per occurrence per rendering, same reseeds) - no PRNG algorithm is assumed; on that stream: same values under any non-seed configuration, randint(n,n) advances, <config seed=S> restarts as a document with seed S. Fail-on-malformed: 16 malformed-expression kinds (incl. untaken branches, short circuits, cycles among group locals) x 25 sites (loop control, 70 KB values) x 7 neighbourhoods (alone / beside / inside / after elements that need a retry, before / after a forward chain of 110-170 elements) must fail the transform - the retry protocol must not turn an error into success. Clause (a), arithmetic semantics of a pure evaluator, is NOT decided by this technique.",
         note="At most one random occurrence per element (attribute evaluation order inside one element is not constrained). <specs> content is not a rendered element. The hook's draw counter is diagnostic only (rolled-back draws are legitimate).",
         technique=TECH + ": PRNG stream position as hidden state, reference-stream conformance oracle; malformed expressions as faults placed around the retry protocol (partial: arithmetic semantics not covered)",
         design="DESIGN.md §4 C14",
     ),
     "C15": dict(
-        text="Scoped programs (g / reuse-of-specs-template / loop / if / var with parallel assignment / probes) are rendered twice: 'back' (anchors first: fault-free) and 'fwd' (anchors last: forward references inside scoped constructs fail between scope push and pop and are re-evaluated by the retry work-list). Probe outputs of both variants must equal an executable lexical-scoping reference model. Seeded exploration over program shapes and fault placements.",
+        text="Scoped programs (g / reuse-of-specs-template / loop / if / var with parallel assignment / probes) are rendered twice: 'back' (anchors first: fault-free) and 'fwd' (anchors last: forward references inside scoped constructs fail between scope push and pop and are re-evaluated by the retry work-list). Probe outputs of both variants must equal an executable lexical-scoping reference model. Seven fixed-form add-ons with their own expected texts (reuse of a reuse, reuse of a rendered leaf, a waiting empty reuse, hyphenated names, empty values, containers as scopes, one value text read in two scopes), fragments without a root element, and now and then a pass through a real svgdx-server whose worker threads have served requests defining every probed name. Seeded exploration over program shapes and fault placements.",
         note="Only g and reuse introduce scopes (loop/if bodies run in the enclosing scope, documented behaviour). Programs whose stored values would contain '$' leave the model and are skipped (counted). Two genuine, unrepaired design-level defects are listed in known_findings.json under their own program classes.",
         technique=TECH + ": fault = forward reference inside a scoped construct (forces re-evaluation), fault-free vs faulted rendering of one program, executable reference model of lexical scoping as oracle",
         design="DESIGN.md §4 C15",
     ),
     "C17": dict(
-        text="Parametric documents with limit L (API and <config>): nesting depth L-1..L+2, flat amplification (L..4L siblings of 19 element kinds at constant depth), loops of every kind (count/while/until/for/nested/retried/self-mutating) with L-1..L+3 passes, variable values of length L-1..L+5, reuse recursion (self, fan-out 2, mutual, bounded). Two-sided verdict from a reference counter model; on acceptance the number of rendered elements is checked (never truncated). The depth counter and retry protocol are the state under watch (hook probes).",
-        note="Nesting depth = XML element levels, root = 1. For wrapper/leaf kinds whose internal accounting may add a constant, acceptance is asserted only at depth <= L-2; pure g chains are asserted exactly.",
+        text="Parametric documents with limit L (API and <config>): nesting depth L-1..L+2, flat amplification (L..4L siblings of 19 element kinds at constant depth), loops of every kind (count/while/until/for/nested/retried/self-mutating) with L-1..L+3 passes, variable values of length L-1..L+5 (also around a limit of 2^24+1), reuse recursion (self, fan-out 2, mutual, bounded), <config loop-limit> inside a running loop, and documents which are not loops (forward chains, clip-path chains) and must be accepted; in a quarter of the runs the svgdx command repeats the verdict with user-style arguments (also with limit-like environment variables set to other values). Two-sided verdict from a reference counter model; on acceptance the number of rendered elements is checked (never truncated). The depth counter and retry protocol are the state under watch (hook probes).",
+        note="Nesting depth = XML element levels, root = 1 (17 wrapper kinds). For wrapper/leaf kinds whose internal accounting may add a constant, acceptance is asserted only at depth <= L-2; pure g chains are asserted exactly. var-limit not being applied to variables bound by group attributes / for loops is a known finding.",
         technique=TECH + ": limit counters and the retry protocol as the simulated state machine; parametric boundary workloads; reference counter model as oracle",
         design="DESIGN.md §4 C17",
     ),
